@@ -485,7 +485,7 @@ class MathMixin(object):
         """Check the student response against a given answer"""
         result, used_funcs = self.raw_check(answer, student_input, **kwargs)
         
-        if result['ok'] is True or result['ok'] == 'partial':
+        if result['ok'] is True or result['ok'] == 'partial' or result['grade_decimal'] > 0:
             self.post_eval_validation(student_input, used_funcs)
         return result
 
